@@ -215,6 +215,37 @@ CHECKS["C11"] = {
     "technique": "static analysis: literal-table agreement, CFG guard dominance, sibling rule on reader return forms and decoder-dtype provenance",
 }
 
+CHECKS["C05"] = {
+    "level": "other",
+    "text": ("Decides: the range guard of each constructor is implied by the documented rejection condition on every ordering of the "
+             "compared quantities (order-type enumeration, witness on failure) and cannot die with TypeError; vertex/edge spacing, "
+             "centres, triangle values and the gammatone/Gabor bandwidth and normalisation constants equal the documented closed "
+             "forms (rational / log-linear normal forms); response methods are memo-free. Does NOT decide monotonicity of centres, "
+             "peak gain 1 or crossing points as numerical facts."),
+    "design_ref": "DESIGN.md §3 C05",
+    "note": NOTE_COMMON + "The GTONE constants are derived from the class docstrings (derivation in DESIGN.md §2).",
+    "technique": "static analysis: order-type enumeration of the validation guard, None-default data flow, closed-form / log-linear normal forms against derived constants, purity rule",
+}
+CHECKS["C06"] = {
+    "level": "other",
+    "text": ("Decides: half-spectrum length width//2+1 (quasi-affine, odd and even), highest vertex <= Nyquist for every accepted "
+             "range (order-type enumeration), start-bin forms, truncated and full responses share per-bin formula / helper and bin "
+             "bounds, Hermitian store iff not half and not analytic with the same value, whole-period fallback, memo-free response "
+             "methods. Does NOT decide the 2 x threshold bound for Gabor/gammatone truncation nor wrap-around at small widths."),
+    "design_ref": "DESIGN.md §3 C06",
+    "note": NOTE_COMMON,
+    "technique": "static analysis: quasi-affine closed form, order-type enumeration, sibling agreement of formulas in normal form, structural store rules, purity rule",
+}
+CHECKS["C07"] = {
+    "level": "other",
+    "text": ("Thin by design: the property's core (IDFT agreement and leakage within tolerances) is numerical and NOT decided. "
+             "Decided necessary conditions: impulse response complex iff not is_real per bank, signs of the advertised temporal "
+             "supports by construction, the support threshold read at call time in both domains, memo-free response methods."),
+    "design_ref": "DESIGN.md §3 C07",
+    "note": NOTE_COMMON + "Nothing about tolerances is claimed.",
+    "technique": "static analysis: dtype/flag correlation, sign-domain rule, call-time configuration rule, purity rule",
+}
+
 _PENDING = "check not built yet in this session (static-analysis clauses planned in DESIGN.md §3)"
 NOT_APPLICABLE = {("C%02d" % i): _PENDING for i in range(1, 21) if ("C%02d" % i) not in CHECKS}
 
